@@ -68,7 +68,7 @@ def _ctc(draw, names, feats):
 PROFILE = S.Profile(S.uvl_names(), single=("mandatory", "optional", "card1", "star1"),
                     group=("alternative", "or", "mutex", "card", "star"), layout="free",
                     ftypes=("BOOLEAN", "BOOLEAN", "BOOLEAN", "INTEGER", "REAL", "STRING"), fcards=True, abstract=True,
-                    attrs=S._uvl_attrs, ctc_max=4, ctc_expr=_ctc, variants=S.VARIANTS_TEXT)
+                    attrs=S._uvl_attrs, ctc_max=4, ctc_expr=_ctc, variants=S.VARIANTS_TEXT, wide=True, simple_ops=C04_LOGICAL)
 
 
 def code_positions(text):
